@@ -39,10 +39,16 @@ def species_objects(names, rng=None, mode='mixed'):
     """pymatgen Species / Element objects for symbol names."""
     from pymatgen.core import Element, Species
 
+    OX = {'Li': 1, 'Na': 1, 'Ag': 1, 'S': -2, 'O': -2, 'P': 5, 'Si': 4, 'B': 3, 'H': 1}
     out = []
+    # oxidation states are decided per symbol, so that equal symbols stay equal species objects
+    charged = {n: (rng is not None and mode in ('species', 'mixed') and rng.uniform() < 0.25) for n in dict.fromkeys(names)}
+    kinds = {n: (mode == 'species' or (mode == 'mixed' and rng is not None and bool(rng.integers(2)))) for n in dict.fromkeys(names)}
     for n in names:
-        use_species = mode == 'species' or (mode == 'mixed' and rng is not None and rng.integers(2))
-        out.append(Species(n) if use_species else Element(n))
+        if kinds[n]:
+            out.append(Species(n, OX.get(n, 1)) if charged[n] else Species(n))
+        else:
+            out.append(Element(n))
     return out
 
 
@@ -394,7 +400,7 @@ def make_many_site_system(rng, n_sites, n_atoms=2, T=40, inner_fraction=1.0, mar
     R = 0.28 * w
     radii = np.full(n_sites, R)
     # hop histories on a small subset of sites mapped to (preferably) high indices
-    sub = int(min(n_sites, max(4, 3 * n_atoms)))
+    sub = int(min(n_sites // 2, max(4, 3 * n_atoms)))
     idx = np.sort(rng.choice(np.arange(n_sites // 2, n_sites) if prefer_high else np.arange(n_sites), size=sub, replace=False))
     if prefer_high:
         idx[-1] = n_sites - 1
